@@ -127,6 +127,7 @@ def stmt_lines(form, args):
         "assoc_section": ["associate (row => sinx(2:3))", "  x = row(1)", "end associate"],
         "assoc_funcsel": [f"associate (z => {a[0]})", "  x = z + z", "end associate"] if a else [],
         "extern": ["x = extf(1.0)"],
+        "tb_two": ["call c%reset()", "call l%reset()"],
         "shadow_local": [f"x = weights(2) + {a[0]}"] if a else [],
         "shadow_dummy": ["call inner()"],
         "return": ["x = 0"],
@@ -227,6 +228,8 @@ def evaluate(case):
                 bad = f"recorded calls {sorted(names)}, invoked {want}" + (f" (spurious {extra})" if extra else "") + (f" (missing {missing})" if missing else "") + (f" (twice {dup})" if dup else "")
                 if extra == ["q"] and not missing and not dup:
                     tag = "block-decl"
+                elif form["n"] == "tb_two" and sorted(names) == ["circle%reset"]:
+                    tag = "tb-dedup"                    # as built: call chains are de-duplicated by their last component only
                 elif form["n"] == "cgoto_if" and not names and not extra and not dup:
                     tag = "cgoto-line-skipped"          # as built: a line holding a computed GO TO is not scanned at all
             elif any(u for n_, u in zip(names, unresolved) if n_ != "extf"):      # extf is an external function: there is nothing to resolve it to
@@ -281,13 +284,14 @@ def run(tier, seed, ck: Check):
                 continue
             if r_["tag"] == "cgoto-line-skipped" and ck.known_finding("C08-F2"):
                 continue
+            if r_["tag"] == "tb-dedup" and ck.known_finding("C08-F3"):
+                continue
             ck.violation("calls", {"form": c["form"], "args": c["args"], "unit": r_["unit"], "style": r_["style"], "callset": c["callset"]},
                          detail=f"[{r_['unit']}/layout {r_['style']}] {stmt_lines(c['form'], c['args'])!r}: {r_['bad']}", extra={"source": r_["src"]})
     ck.coverage["traces_validated_against_impl"] = 0
     ck.sample({"statement": stmt_lines(cases[len(cases) // 2]["form"], cases[len(cases) // 2]["args"]), "callset": cases[len(cases) // 2]["callset"]})
     ck.assumptions += [
         "user procedures never carry the exact name of an intrinsic or keyword (overlap means shared prefixes / suffixes: size_of, sinx, iffy, callme)",
-        "type-bound calls (call x%p()) are outside this generator",
         "every invoked procedure lives in a USEd module, so each recorded call must also be resolved to that procedure",
     ]
 
